@@ -310,6 +310,65 @@ theorem locusTags_get (pre : List Char) (step n i : Nat) (h : i < n) :
   rw [this, List.getElem?_map, numsFrom_get step 0 n i h]
   simp
 
+/-! ### locus tags over several collections of one call -/
+
+theorem collectionTags_get (pre : List Char) (step : Nat) : ∀ (counts : List Nat) (off i j n : Nat),
+    counts[i]? = some n → j < n →
+    ((collectionTagsFrom pre (step : Int) (off : Int) counts)[i]?).bind (fun l => l[j]?)
+      = some (pre ++ '_' :: natStr (off + ((counts.take i).sum + j + 1) * step))
+  | [], _, i, _, _, h, _ => by simp at h
+  | m :: rest, off, 0, j, n, h, hj => by
+    simp only [List.getElem?_cons_zero, Option.some.injEq] at h
+    subst h
+    simp only [collectionTagsFrom, List.getElem?_cons_zero, Option.bind_some, List.take_zero, List.sum_nil,
+      Nat.zero_add]
+    rw [locusTagsFrom_nat, List.getElem?_map, numsFrom_get step off m j hj]
+    rfl
+  | m :: rest, off, i + 1, j, n, h, hj => by
+    simp only [List.getElem?_cons_succ] at h
+    have hoff : (off : Int) + (step : Int) * (m : Int) = ((off + step * m : Nat) : Int) := by push_cast; rfl
+    simp only [collectionTagsFrom, List.getElem?_cons_succ, hoff]
+    rw [collectionTags_get pre step rest (off + step * m) i j n h hj]
+    simp only [List.take_succ_cons, List.sum_cons]
+    congr 3
+    have e1 : (m + (List.take i rest).sum + j + 1) * step = m * step + ((List.take i rest).sum + j + 1) * step := by
+      rw [show m + (List.take i rest).sum + j + 1 = m + ((List.take i rest).sum + j + 1) by omega, Nat.add_mul]
+    have e2 : step * m = m * step := Nat.mul_comm _ _
+    rw [e1]
+    congr 1
+    omega
+
+/-- **locus tags across collections**: gene `j` (0-based) of collection `i` gets `prefix_<(g + j + 1)·step>` where
+    `g` is the number of genes in the collections before it — the offset is NOT reset per collection -/
+theorem collectionTags_spec (pre : List Char) (step : Nat) (counts : List Nat) (i j n : Nat)
+    (h : counts[i]? = some n) (hj : j < n) :
+    ((collectionTags pre (step : Int) counts)[i]?).bind (fun l => l[j]?)
+      = some (pre ++ '_' :: natStr (((counts.take i).sum + j + 1) * step)) := by
+  have := collectionTags_get pre step counts 0 i j n h hj
+  simpa [collectionTags] using this
+
+theorem locusTagsFrom_append (pre : List Char) (step : Int) (off : Int) (a b : Nat) :
+    locusTagsFrom pre step off (a + b) = locusTagsFrom pre step off a ++ locusTagsFrom pre step (off + step * a) b := by
+  induction a generalizing off with
+  | zero => simp [locusTagsFrom]
+  | succ a ih =>
+    rw [show a + 1 + b = (a + b) + 1 by omega]
+    simp only [locusTagsFrom, List.cons_append]
+    rw [ih (off + step)]
+    congr 3
+    push_cast
+    rw [Int.mul_add]; omega
+
+/-- all tags of one call, collection after collection, are the one running sequence `locusTags` -/
+theorem collectionTags_flatten (pre : List Char) (step : Int) (counts : List Nat) :
+    (collectionTags pre step counts).flatten = locusTags pre step counts.sum := by
+  unfold collectionTags locusTags
+  generalize (0 : Int) = off
+  induction counts generalizing off with
+  | nil => simp [collectionTagsFrom, locusTagsFrom]
+  | cons n rest ih =>
+    simp only [collectionTagsFrom, List.flatten_cons, List.sum_cons, ih, locusTagsFrom_append]
+
 /-! ### the gene feature's strand -/
 
 theorem argmax_fold (all : List Strand) (rest : List Strand) (s : Strand) :
